@@ -1319,7 +1319,13 @@ func (c *Conn) readLine() (string, error) {
 		}
 	}
 
-	return c.text.ReadLine()
+	line, err := c.text.ReadLine()
+	if err == nil && c.lineLimitReader.tripped {
+		// bufio hands out what it had buffered of an over-long line as if it
+		// were a complete line; it must not be executed.
+		return "", ErrTooLongLine
+	}
+	return line, err
 }
 
 func (c *Conn) reset() {
